@@ -160,6 +160,10 @@ def parse_unit(path):
         elif d == "%derive":
             p, ds = arg.split(None, 1)
             unit.derives[p] = ds
+        elif d == "%constspec":
+            # %constspec PATH ensures-text : const whose initialiser calls an exec fn (R14)
+            p, ds = arg.split(None, 1)
+            unit.derives["const:" + p] = ds
         elif d == "%props":
             default_props = arg.split()
         elif d == "%fn":
